@@ -312,9 +312,10 @@ class Case:
         """the extra arguments shift and tilt the surface so that losing them changes the answer"""
         self.received.append(extra)
         f, g = self.base(np.array(x, dtype=float))
-        if len(extra) >= 1:
+        num = lambda v: isinstance(v, (bool, int, float, np.integer, np.floating))
+        if len(extra) >= 1 and num(extra[0]):
             f += float(extra[0])
-        if len(extra) >= 2:
+        if len(extra) >= 2 and num(extra[1]):
             f += float(extra[1]) * float(x[0])
             g = g.copy()
             g[0] += float(extra[1])
